@@ -67,6 +67,7 @@ inductive Rec where
   | prop (h r : Nat)                           -- own proposal
   | part (h r : Nat)                           -- a block part of it
   | vote (h r : Nat) (pre : Bool) (nil : Bool) -- own prevote (`pre`) / precommit, for nil or for the block
+  | torn                                       -- a partial line: the process died while writing a record
 deriving DecidableEq, Repr, Inhabited
 
 /-- what `node.NewNode` (genesis, handshake) reads and writes: the three databases -/
@@ -332,10 +333,40 @@ with WAL replay it is put back where it was; without, it starts the height afres
 lets it sign again only if it signed nothing at `H` beyond the round-0 proposal. -/
 def live (d : Disk) : Bool := replays d || d.pv.le ⟨d.st + 1, 0, 1⟩
 
+/-! ### a record torn by the kill
+
+A kill in the middle of a write leaves a partial last line.  `WALReader` treats a partial LAST line
+as the end of the log (C38), so the first restart does not see it — but the restarted node appends
+to the same file, the partial line and the next record become one undecodable line, and the next
+`catchupReplay` of that height returns a `DataCorruptionError`, which `OnStart` returns: the node
+does not start until the WAL is repaired by hand. -/
+
+/-- the world a kill leaves when it falls into the write of the next WAL record -/
+def tornKill (d : Disk) : Disk := { d with wal := d.wal ++ [.torn] }
+
+/-- no partial line is followed by another record -/
+def noTornInside : List Rec → Bool
+  | [] => true
+  | [_] => true
+  | .torn :: _ :: _ => false
+  | _ :: rest => noTornInside rest
+
+/-- the records after the (first) marker `n`, if it exists -/
+def afterMark : List Rec → Nat → Option (List Rec)
+  | [], _ => none
+  | r :: w, n => if r = .mark n then some w else afterMark w n
+
+/-- `ConsensusState.OnStart` at height `st+1`: `catchupReplay` must be able to decode every record
+after the marker of that height (a missing marker only means: nothing is replayed) -/
+def startOK (d : Disk) : Bool :=
+  match afterMark d.wal (d.st + 1) with
+  | none => true
+  | some seg => noTornInside seg
+
 /-- the height the restarted node resumes is untouched: nothing signed, nothing logged for it -/
 def freshHeight (d : Disk) : Bool :=
   d.pv.h ≤ d.st && d.wal.all (fun r => match r with
-    | .mark _ => true
+    | .mark _ | .torn => true
     | .prop h _ | .part h _ | .vote h _ _ _ => h ≤ d.st)
 
 /-! ## Scripts: the chain the harness drives
